@@ -286,8 +286,10 @@ func runC20(seed int64, count int) {
 					pr.inactNext = inactive
 				}
 				touched := -1
+				nestedAt, nestedEv := -1, ""
 				if op == "fire" && !pr.panicNext && rng.Intn(4) == 0 {
 					// the idle-event handler takes a while, and a message passes the idle handler meanwhile
+					overlap := rng.Intn(2) == 0
 					pr.eventHook = func() {
 						clk.now += time.Duration(rng.Intn(3)) * tick
 						touched = sec()
@@ -295,6 +297,21 @@ func runC20(seed int64, count int) {
 							pl.FireChannelRead("m")
 						} else {
 							netty.NvInvoke(ch, func() { pl.FireChannelWrite([]byte("w")) })
+						}
+						if overlap {
+							// … and the handler is still busy (a heartbeat blocked on a peer that stopped reading) when the timer,
+							// re-armed by that message, comes due again: the runtime runs the callback on another goroutine
+							if t2 := clk.due(); t2 != nil {
+								if clk.now < t2.deadline {
+									clk.now = t2.deadline
+								}
+								n0 := len(pr.events)
+								t2.armed = false
+								t2.f()
+								nestedAt = sec()
+								nestedEv = strings.Join(pr.events[n0:], ",")
+								pr.events = pr.events[:n0]
+							}
 						}
 					}
 				}
@@ -313,6 +330,12 @@ func runC20(seed int64, count int) {
 				if touched >= 0 {
 					report(op, firedAt, "-") // the check ran (and the event was delivered) before the message passed
 					report("touch", touched, "d=0")
+					if nestedAt >= 0 {
+						if nestedEv == "" {
+							nestedEv = "-"
+						}
+						emit("C20 op fire %d - ev=%s exc=0", nestedAt, nestedEv)
+					}
 				} else {
 					report(op, sec(), "-")
 				}
